@@ -163,7 +163,8 @@ namespace GeographicLib {
   }
 
   int Utility::lookup(const char* s, char c) {
-    const char* p = strchr(s, toupper(c));
+    // N.B. strchr(s, 0) finds the terminating null character
+    const char* p = c ? strchr(s, toupper(c)) : NULL;
     return p != NULL ? int(p - s) : -1;
   }
 
